@@ -12,6 +12,10 @@ CLAIMED = {
    text="Lean 4 theorems on the executable model of Frame/Command text handling: print∘parse = id for every accepted text, parse∘print = id for every well-formed frame (all verbs, seqn, the three address shapes over all ids, any code, 1-48 payload bytes; unbounded strings, symbolic), length field = byte count, the fixed-column re-validation never disagrees, Command._from_attrs rebuilds the frame. Tied to /repo by running model and implementation on ~26k generated frames, single-edit mutants and CLI short forms per run (shape recogniser vs COMMAND_REGEX vs the regenerated regex AST) and by writing packets through the real packet logger and replaying the file through the real FileTransport.",
    note="Trusted: Lean kernel; hand-written isFrameShape recogniser (equality with the generated COMMAND_REGEX AST and with CPython's re is a per-run correspondence obligation, not a theorem); CLI tokenisation (split/upper) and the packet-log line format are covered by the correspondence check and the direct oracle, not by a theorem (partial); datetime.timestamp/fromtimestamp identity is a monitored assumption.",
    ref="DESIGN.md §3 C02"),
+ "C05": dict(
+   text="Lean 4 theorems on an executable, history-free decode function (Model/Parsers.lean: the seven array-capable parsers 0009/000A/2309/30C9/2249/22C9/3150 and a heat core 0004/0008/1060/10A0/1260/12B0/1F09/2349, parse_payload, the Message._idx merge, over the regenerated tables and regexes): (array_elementwise) for every array-capable code and ANY number of elements the decode is the in-order list of the element decodes; (elem_idx_consistent) every element reports the index carried in its first byte; (valve_demand_in_unit, temp_in_wire_range) ratios lie in 0..1 and temperatures are k/100 with -27315<=k<=32767. Values are of a Json type, so JSON-ability and determinism of the model are by construction; that the implementation computes this same function under every decoding history is the per-run correspondence check: ~14k frames (every verb/code regex, repo logs, arrays of 1-8 elements) decoded fresh, again in a shuffled order, again after clearing the library's lru caches, and compared with the model for the modelled codes; json.dumps/loads, index consistency, ranges and element-wise decode are also scored directly on the implementation for all codes.",
+   note="partial: theorems cover the modelled parsers only (15 codes); for the other ~90 codes only the direct oracle on the implementation applies (determinism under histories, JSON-ability, index = payload[:2], no exception outside PacketInvalid). Clock-dependent text fields (_next_setpoint, _next_sync) are checked to equal packet-time + payload value and then excluded. Trusted: Lean kernel, the hand-written parser models (differentially validated), translator.",
+   ref="DESIGN.md §3 C05"),
  "C06": dict(
    text="Lean 4 theorems on the executable model of pkt_header/_ctx/_pkt_idx/_has_array/_has_ctl (over the regenerated code tables) and of the three match predicates of the QoS states: headers are injective in (code, verb, device, context) so packets differing in any of them are never confused; a packet whose header equals a request's expected-reply header has the request's code, the answering verb, the addressed device as source and the same context (soundness), and conversely (completeness); the transmit header of a request is invariant under the gateway substituting its real id for the 18:000730 placeholder (echo recognition). Tied to /repo per run by comparing tx/rx headers of the real Command/Packet on ~10k schema-regex-generated and repo-log frames, and by driving real WantEcho/WantRply state objects on ~2.5k request/echo/reply/near-miss tuples (also scored directly by the property oracle).",
    note="Trusted: Lean kernel; Model/Header.lean + Model/Match.lean (hand-written, validated differentially incl. exception classes); the tables (regenerated by the translator). 1FC9 (binding) headers are modelled but excluded from the soundness/completeness theorems; three 1FC9 defects are recorded as known findings. `context` positions used by the oracle (payload[:2]; 0005/000C [:4]; 0404 [:4]+[10:12]; 0418/3220 [4:6]) are spec-level knowledge in the harness.",
